@@ -204,8 +204,8 @@ prop('C15', COMMON +
      'fields of the checker\'s SsaAnalysisResult, which is only obtained from perform_ssa_analysis_on_module (no second '
      'scope resolver). NAV-VIA-SSA: every path of a navigation query that handles a local-name hit passes through the SSA '
      'lookup. LOC-GUARD: a cursor-position test gating the descent into a child tests a location of that child or of a node '
-     'containing it (sibling locations only where the parser provably widens them). RENAME-RELEVANCE: the unconditional rewrite of a variable occurrence is reached only behind a range test of the expression (or for the single child of a binder-free node). IDENT-ALPHABET keyword-gate: the new name is read back by the parser before a renaming is applied. PEEK-THEN-VISIT: where a function of the walker family inspects the variant of a child node it reaches through a slot of its parent, the variants it does not name are still handed to the family\'s visitor for that node type on every path (they are not treated as leaves). FIND-UNWRAP: a search result (`find` / `position`) that a request handler unwraps comes from a search whose predicate is the bare location-containment test that the preceding position lookup established - an added conjunct is not covered by that lookup. SEARCH-NO-EARLY-NONE: the cursor search (location_cover) uses `?` only on the results of child searches (or where no child search can follow), never to turn the absence of an unrelated value into "nothing under the cursor" before the remaining children were searched. Does not decide capture-freedom of the new name or behavioural identity after rename.',
-     [ssa_shared.run, ssa_shared.run_nav_via_ssa, ssa_shared.run_ident_alphabet, printer_rules.run_pattern_parens, loc_guard.run, loc_guard.run_rename_relevance, loc_guard.run_search_no_early_none, scope.run_iflet_else, TI.make(['T-ren', 'T-ssa'])])
+     'containing it (sibling locations only where the parser provably widens them). RENAME-RELEVANCE: the unconditional rewrite of a variable occurrence is reached only behind a range test of the expression (or for the single child of a binder-free node). IDENT-ALPHABET keyword-gate: the new name is read back by the parser before a renaming is applied. PEEK-THEN-VISIT: where a function of the walker family inspects the variant of a child node it reaches through a slot of its parent, the variants it does not name are still handed to the family\'s visitor for that node type on every path (they are not treated as leaves). FIND-UNWRAP: a search result (`find` / `position`) that a request handler unwraps comes from a search whose predicate is the bare location-containment test that the preceding position lookup established - an added conjunct is not covered by that lookup. SEARCH-NO-EARLY-NONE: the cursor search (location_cover) uses `?` only on the results of child searches (or where no child search can follow), never to turn the absence of an unrelated value into "nothing under the cursor" before the remaining children were searched. RENAME-RELEVANCE containment clause: the relevance test of the renamer asks Location::contains (a weaker relation makes every expression relevant for the definition of `this`, located at the whole class). RENAME-KEEPS-COMMENTS: a node with a comment slot that the renamer rebuilds from an existing node takes the slot from that node. Does not decide capture-freedom of the new name or behavioural identity after rename.',
+     [ssa_shared.run, ssa_shared.run_nav_via_ssa, ssa_shared.run_ident_alphabet, printer_rules.run_pattern_parens, loc_guard.run, loc_guard.run_rename_relevance, loc_guard.run_search_no_early_none, loc_guard.run_rename_keeps_comments, scope.run_iflet_else, TI.make(['T-ren', 'T-ssa'])])
 
 # properties whose reports on the unchanged tree are not yet triaged are not claimed
 import os as _os
@@ -248,8 +248,8 @@ prop('C17', COMMON +
      'insert); a marker sets the bit for every heap handle whose slot is Temporary (mark-total). SWEEP-WINDOW: zone abstract '
      'interpretation of the sweeper with variables for the cursor field and the table length: the swept range starts at the '
      'cursor found on entry and the cursor is left at its end (or 0 at the table end), so consecutive windows tile the table. '
-     'PER-ELEMENT-TOTAL: loops that make strings permanent or mark them walk their whole collection. PSTR-TAG discriminator: no decision from the raw handle word other than the tag comparison. INTERN-DISCIPLINE permanent-entry: a text entered into the permanent intern map has its slot made permanent on every path. Does not decide the interleaving argument itself (that marking completes between cursor wraps).',
-     [heap.run_tag, heap.run_dealloc, heap.run_unintern, heap.run_monotone, heap.run_intern, heap.run_unmarked_set, heap.run_per_element_total, sweep_window.run,
+     'PER-ELEMENT-TOTAL: loops that make strings permanent or mark them walk their whole collection. PSTR-TAG discriminator: no decision from the raw handle word other than the tag comparison. INTERN-DISCIPLINE permanent-entry: a text entered into the permanent intern map has its slot made permanent on every path. MODREF-PARTS-PERMANENT: every push onto the module-reference table is preceded - in the pushing function or in every caller - by the loop that promotes the parts to permanent strings. Does not decide the interleaving argument itself (that marking completes between cursor wraps).',
+     [heap.run_tag, heap.run_dealloc, heap.run_unintern, heap.run_monotone, heap.run_intern, heap.run_unmarked_set, heap.run_per_element_total, heap.run_modref_parts_permanent, sweep_window.run,
       witness.run_for(['WHeap'], 'C17: handles cannot be forged and heap internals cannot be touched outside the crate (compile-fail witnesses)')],
      ['the marker marks every live string before the unmarked-module set becomes empty (C11 side, T-gc)'])
 
